@@ -1185,7 +1185,33 @@ func faultBases(thorough bool) []faultBase {
 			}
 		}
 	}
+	if !thorough {
+		// One P&T base per syncer in the quick tier.
+		out = append(out, faultBase{true, 1, preAbsent, preAbsent, false}, faultBase{true, 1, preAbsent, preAbsent, true})
+	}
 	return out
+}
+
+// stuckAt names, for a signature, what the object's Synced condition reports
+// at quiescence: "synced" or a slug of the first segment of the error message.
+func stuckAt(u *unstructured.Unstructured) string {
+	st, _, msg := condOf(u, "Synced")
+	if st == "True" {
+		return "synced"
+	}
+	if i := strings.Index(msg, ":"); i >= 0 {
+		msg = msg[:i]
+	}
+	var b strings.Builder
+	for _, c := range strings.ToLower(msg) {
+		switch {
+		case c >= 'a' && c <= 'z', c >= '0' && c <= '9':
+			b.WriteRune(c)
+		case b.Len() > 0 && !strings.HasSuffix(b.String(), "-"):
+			b.WriteByte('-')
+		}
+	}
+	return "stuck-" + strings.TrimSuffix(b.String(), "-")
 }
 
 func faultBody(r *explore.Run, rep *report.R, sc string, bases []faultBase) {
@@ -1265,11 +1291,11 @@ func faultBody(r *explore.Run, rep *report.R, sc string, bases []faultBase) {
 	xs, cs := w.s.Peek(w.dest), w.s.Peek(dst)
 	faults := strings.Join(inj.Taken, "; ")
 	if xs == nil || ctrlUID(xs) != xrUID || !sameData(dataOf(xs), want) {
-		r.Failf("fault/xr-secret-differs-from-reference", "after [%s] and fault-free reconciles to quiescence the XR's secret is %s (controller %q), reference %s controlled by the XR (%s)", faults, fmtData(dataOf(xs)), ctrlUID(xs), fmtData(want), b)
+		r.Failf("fault/xr-secret-differs-from-reference/"+stuckAt(w.s.Peek(xrh.XRKey(xrName))), "after [%s] and fault-free reconciles to quiescence the XR's secret is %s (controller %q), reference %s controlled by the XR (%s)", faults, fmtData(dataOf(xs)), ctrlUID(xs), fmtData(want), b)
 	}
 	if cs == nil || ctrlUID(cs) != cmUID || !sameData(dataOf(cs), want) {
 		st, _, msg := condOf(w.s.Peek(xrh.ClaimKey(cmNS, cmName)), "Synced")
-		r.Failf("fault/claim-secret-differs-from-reference", "after [%s] and fault-free reconciles to quiescence the claim's secret is %s (controller %q), reference %s controlled by the claim (%s; claim Synced=%s %q)", faults, fmtData(dataOf(cs)), ctrlUID(cs), fmtData(want), b, st, msg)
+		r.Failf("fault/claim-secret-differs-from-reference/"+stuckAt(w.s.Peek(xrh.ClaimKey(cmNS, cmName))), "after [%s] and fault-free reconciles to quiescence the claim's secret is %s (controller %q), reference %s controlled by the claim (%s; claim Synced=%s %q)", faults, fmtData(dataOf(cs)), ctrlUID(cs), fmtData(want), b, st, msg)
 	}
 	w.steady("xr", xrec, xrNN, w.dest, xrh.XRKey(xrName), 1)
 	w.steady("claim", crec, cmNN, dst, xrh.ClaimKey(cmNS, cmName), 1)
